@@ -246,6 +246,8 @@ pub struct WalkCfg {
     /// choose among the moves the *library* generates (C05: "any sequence of generated moves"); the model
     /// then follows mechanically and may stop being meaningful - monitors must not rely on it
     pub follow_library: bool,
+    /// probability (per 1000) of an echo step at a node (look-alike positions, then the node again)
+    pub echo_per_mille: u64,
 }
 
 /// One playout from `start`, calling `mon` at every node (including the nodes of the prelude).
@@ -280,6 +282,58 @@ pub fn playout(start: &Start, cfg: &WalkCfg, rng: &mut Rng, mon: &mut dyn NodeMo
             mon.node(&n, rep, rng);
         }
         nodes += 1;
+        // ---- echo: look-alike positions (same placement; other side to move, fewer castling rights, no e.p.
+        // state) are judged in between, then this node once more.  State that survives between calls and is
+        // keyed by part of the position (a memo, a thread-local cache, a reused scratch object) answers for the
+        // wrong position on one of these visits; a library without such state is visited a few more times.
+        if cfg.echo_per_mille > 0 && rng.chance(cfg.echo_per_mille, 1000) {
+            let mut alikes: Vec<RPos> = vec![];
+            let mut q = p.null();
+            if q.valid() {
+                alikes.push(q.clone());
+            }
+            if p.castle != 0 {
+                q = p.clone();
+                q.castle &= rng.next() as u8 & 15;
+                if q.castle != p.castle {
+                    alikes.push(q.clone());
+                    let mut q2 = q.null();
+                    if rng.chance(1, 2) && q2.valid() {
+                        q2.castle = q.castle;
+                        alikes.push(q2);
+                    }
+                }
+            }
+            if p.ep.is_some() {
+                q = p.clone();
+                q.ep = None;
+                alikes.push(q);
+            }
+            for a in alikes.iter() {
+                if !a.valid() {
+                    continue;
+                }
+                if let Ok(ab) = Board::from_str(&a.fen()) {
+                    let al = a.legal_moves();
+                    let n = Node { b: &ab, p: a, legal: &al, ply: 0, prev: None, after_null: false, tag: "echo", incremental: false, diverged: false };
+                    rep.count("ev_echo_lookalike_nodes");
+                    mon.node(&n, rep, rng);
+                }
+            }
+            let n = Node {
+                b: &b,
+                p: &p,
+                legal: &legal,
+                ply,
+                prev: prev.as_ref().map(|(pb, pp, m)| (pb, pp, *m)),
+                after_null,
+                tag: start.tag,
+                incremental,
+                diverged: false,
+            };
+            rep.count("ev_echo_revisits");
+            mon.node(&n, rep, rng);
+        }
         if legal.is_empty() && !cfg.follow_library {
             break;
         }
